@@ -7,13 +7,14 @@ Differential monitor of the derivative D = d(qfrc_smooth)/d(qvel) that MJWarp fo
   (iii) one mjw.step with each implicit integrator versus mj_step (velocity after the step), on constraint-free models.
 """
 
+import copy
 import re
 
 import mujoco
 import numpy as np
 
 from mon import cmp, core, gen, mw
-from mon.props.C03 import judge_el
+from mon.props.C03 import dense_moment_mj, judge_el, reference_el
 
 ID = "C27"
 LEVEL = "exploration"
@@ -28,9 +29,10 @@ RULE = (
 ASSUMPTIONS = [
   "MuJoCo 3.13 mj_implicit's qDeriv (float64) is the analytic reference; the finite-difference oracle differentiates MuJoCo's "
   "own qfrc_smooth (central differences, h=1e-5*max(1,|v|)) and is consulted only where it agrees with MuJoCo's analytic value",
-  "MJWarp's D is recovered as (M - out)/dt from its own M, so the allowance is 1e-5*max(1,|D|) + 4e-7*|M_ij|/dt",
+  "MJWarp's D is recovered as (M - out)/dt from its own M, so the allowance is 1e-5*max(1,|D_ij|,sqrt(D_ii*D_jj)) + 2e-6*|M_ij|/dt (about 30 float32 ulps of the M entry the term is accumulated into)",
   "the implicit system matrix is assembled with the same internal calls as forward.implicit (deriv_smooth_vel, _map_m2d, "
   "deriv_rne_vel) because implicit() factorises d.qLU in place",
+  "velocity after one step: allowance max(1e-4, 3e-7*cond(M - dt*D)) * max(1,|qvel|,dt*|qacc|) + 50*noise(ulp probe of mj_step)",
   "dcmotor actuators are excluded (MuJoCo 3.13 redesigned its controller; the repository's own dcmotor derivative tests are skipped)",
 ]
 BUDGET = {"quick": 150, "thorough": 1500}
@@ -104,10 +106,12 @@ def build(case, rec):
     rec.rejected = "mujoco compile"
     return None
   # polynomial damping written into the compiled model
-  for i in range(mjm.nv):
-    if mjm.dof_damping[i] > 0 and rng.random() < 0.5:
-      mjm.dof_dampingpoly[i] = [rng.uniform(0, 1.5), rng.uniform(0, 0.5)]
+  for j in range(mjm.njnt):
+    a, n = int(mjm.jnt_dofadr[j]), {0: 6, 1: 3, 2: 1, 3: 1}[int(mjm.jnt_type[j])]
+    if mjm.dof_damping[a] > 0 and rng.random() < 0.5:
+      mjm.dof_dampingpoly[a : a + n] = [rng.uniform(0, 1.5), rng.uniform(0, 0.5)]  # one polynomial per joint, as the compiler does
       feats.add("dof_dampingpoly")
+      feats.add("dof_dampingpoly:" + ("free", "ball", "slide", "hinge")[int(mjm.jnt_type[j])])
   for t in range(mjm.ntendon):
     if mjm.tendon_damping[t] > 0 and rng.random() < 0.5:
       mjm.tendon_dampingpoly[t] = [rng.uniform(0, 1.5), rng.uniform(0, 0.5)]
@@ -133,7 +137,7 @@ def mj_qderiv(mjm, st, integrator):
   M = mw.dense_M(m2, d2.M)
   mujoco.mj_implicit(m2, d2)
   warn = sum(int(x.number) for x in d2.warning)
-  return dense_from_D(m2, d2.qDeriv), M, np.array(d2.qvel), warn
+  return dense_from_D(m2, d2.qDeriv), M, float(np.abs(d2.qacc).max()), warn
 
 
 def fd_qderiv(mjm, st):
@@ -216,24 +220,67 @@ def run_case(case):
     qvel_next[name] = mw.npy(d.qvel).astype(np.float64)
 
   tril = np.tril(np.ones((nv, nv), dtype=bool))
+  has_fluid = bool(mjm.opt.density > 0 or mjm.opt.viscosity > 0)
+  # root cause outside the derivative (passive.py): ellipsoid-model geoms whose centre is not the body's centre of mass
+  offset_ellipsoid = False
+  if has_fluid:
+    for g in range(mjm.ngeom):
+      if mjm.geom_fluid[g, 0] > 0:
+        bdy = mjm.geom_bodyid[g]
+        if np.abs(mjm.geom_pos[g] - mjm.body_ipos[bdy]).max() > 1e-6:
+          offset_ellipsoid = True
+  suffix = ":ellipsoid-fluid-geom-offset-from-com" if offset_ellipsoid else ""
+  has_ellipsoid = has_fluid and bool(np.any(mjm.geom_fluid[:, 0] > 0))
+  # MJWarp symmetrises the ellipsoid-model derivative for implicitfast; MuJoCo 3.13's qDeriv keeps it unsymmetric
+  fast_sig = "qDeriv:implicitfast" + (":ellipsoid-fluid-derivative-symmetrized" if has_ellipsoid else "")
+  muscle_ids = [i for i in range(mjm.nu) if int(mjm.actuator_gaintype[i]) == int(mujoco.mjtGain.mjGAIN_MUSCLE)]
+  if offset_ellipsoid:
+    rec.cover("models_with_offset_ellipsoid_fluid_geom", 1)
+  if muscle_ids:
+    rec.cover("models_with_muscle", 1)
+
+  def judge_split(name, got, ref, sel, allow, noise, base_sig, mus, allow_abs, ctx):
+    """Judges the selected entries; entries touched by a muscle actuator / fluid-upper-triangle carry their own sig."""
+    groups = [("", sel & ~mus, base_sig + suffix), (":muscle", sel & mus, base_sig + ":muscle-gain-velocity-term" + suffix)]
+    out = "ok"
+    for tag, msk, sig in groups:
+      if msk.any():
+        nz = noise[msk] if np.ndim(noise) else noise
+        dg = np.sqrt(np.abs(np.diag(ref)))
+        scl = np.maximum(1.0, np.maximum(np.abs(ref), np.outer(dg, dg)))  # terms entering D_ij are bounded by sqrt(D_ii D_jj)
+        r = judge_el(rec, name + tag.replace(":", "_"), got[msk], ref[msk], allow, nz, scale=scl[msk], sig=sig, ctx=ctx, allow_abs=allow_abs[msk])
+        if r != "ok":
+          out = r
+    return out
+
   nontrivial = False
   for w in range(nworld):
     st = states[w]
     ctx = f"world {w}"
-    Df_ref, M_ref, vnext_fast, warn1 = mj_qderiv(mjm, st, mujoco.mjtIntegrator.mjINT_IMPLICITFAST)
-    Di_ref, _, vnext_full, warn2 = mj_qderiv(mjm, st, mujoco.mjtIntegrator.mjINT_IMPLICIT)
+    Df_ref, M_ref, qacc_max, warn1 = mj_qderiv(mjm, st, mujoco.mjtIntegrator.mjINT_IMPLICITFAST)
+    Di_ref, _, _, warn2 = mj_qderiv(mjm, st, mujoco.mjtIntegrator.mjINT_IMPLICIT)
     if warn1 or warn2 or not np.all(np.isfinite(Di_ref)):
       rec.inconcl("MuJoCo raised a warning on this state")
       continue
+    # entries that a muscle actuator's moment arm touches
+    mus = np.zeros((nv, nv), dtype=bool)
+    if muscle_ids:
+      md = mujoco.MjData(mjm)
+      mw.apply_state_mj(mjm, md, st)
+      mujoco.mj_fwdPosition(mjm, md)
+      mom = dense_moment_mj(mjm, md)
+      for i in muscle_ids:
+        sup = np.abs(mom[i]) > 0
+        mus |= np.outer(sup, sup)
     # MJWarp's D from its own M
     Hf = np.zeros((nv, nv))
     mujoco.mju_sym2dense(Hf, out_fast[w][: mjm.nC], mjm.M_rownnz, mjm.M_rowadr, mjm.M_colind)
     Mw_d = mw.dense_M(mjm, Mw[w])
     Df_got = (Mw_d - Hf) / dt
-    allow_abs = 4e-7 * np.abs(M_ref) / dt
+    allow_abs = 2e-6 * np.abs(M_ref) / dt
     # (i) lower triangle in M-structure
     sel = tril & ((Df_ref != 0) | (Hf != 0) | (M_ref != 0))
-    judge_el(rec, "qDeriv_implicitfast", Df_got[sel], Df_ref[sel], A, 0.0, sig="qDeriv:implicitfast", ctx=ctx, allow_abs=allow_abs[sel])
+    judge_split("qDeriv_implicitfast", Df_got, Df_ref, sel, A, 0.0, fast_sig, mus, allow_abs, ctx)
     # (ii) full matrix in D-structure
     Hi = np.zeros((nv, nv))
     mask = np.zeros((nv, nv), dtype=bool)
@@ -244,19 +291,37 @@ def run_case(case):
     outside = (~mask) & (np.abs(Di_ref) > 1e-9)
     if outside.any():
       rec.viol("qDeriv:implicit:structure", f"MuJoCo's qDeriv has {int(outside.sum())} non-zero entries outside MJWarp's D-structure {ctx}")
-    res = judge_el(rec, "qDeriv_implicit", Di_got[mask], Di_ref[mask], A, 0.0, sig="qDeriv:implicit", ctx=ctx, allow_abs=allow_abs[mask])
-    # finite-difference oracle
+    judge_split("qDeriv_implicit_lower", Di_got, Di_ref, mask & tril, A, 0.0, "qDeriv:implicit", mus, allow_abs, ctx)
+    up_sig = "qDeriv:implicit:fluid-derivative-mirrored-into-upper-triangle" if has_fluid else "qDeriv:implicit"
+    judge_split("qDeriv_implicit_upper", Di_got, Di_ref, mask & ~tril, A, 0.0, up_sig, mus, allow_abs, ctx)
+    # finite-difference oracle: consulted where it agrees with MuJoCo's analytic derivative
     Dfd = fd_qderiv(mjm, st)
     sc = np.maximum(1.0, np.abs(Di_ref))
     fd_tol = 1e-4 * sc + 1e-6 * np.abs(Dfd).max()
     trusted = mask & (np.abs(Dfd - Di_ref) <= fd_tol)
     rec.cover("fd_entries_trusted", int(trusted.sum()))
     rec.cover("fd_entries_untrusted", int((mask & ~trusted).sum()))
-    if trusted.any():
-      judge_el(rec, "qDeriv_vs_fd", Di_got[trusted], Dfd[trusted], 1e-4, fd_tol[trusted] / cmp.C_NOISE, sig="qDeriv:implicit:finite-difference", ctx=ctx, allow_abs=allow_abs[trusted])
+    judge_split("qDeriv_vs_fd_lower", Di_got, Dfd, trusted & tril, 1e-4, fd_tol / cmp.C_NOISE, "qDeriv:implicit:finite-difference", mus, allow_abs, ctx)
+    judge_split("qDeriv_vs_fd_upper", Di_got, Dfd, trusted & ~tril, 1e-4, fd_tol / cmp.C_NOISE, up_sig + ":finite-difference", mus, allow_abs, ctx)
     # (iii) step
-    for name, vref in (("implicitfast", vnext_fast), ("implicit", vnext_full)):
-      judge_el(rec, "qvel_after_step_" + name, qvel_next[name][w], vref, 1e-4, 0.0, scale=max(1.0, float(np.abs(vref).max())), sig="step:" + name + ":qvel", ctx=ctx)
+    for name in ("implicitfast", "implicit"):
+      integ = mujoco.mjtIntegrator.mjINT_IMPLICITFAST if name == "implicitfast" else mujoco.mjtIntegrator.mjINT_IMPLICIT
+      m2 = copy.copy(mjm)
+      m2.opt.integrator = integ
+      sref, snoise, _ = reference_el(m2, st, mujoco.mj_step, lambda mm, dd: {"qvel": dd.qvel}, seed=case["seed"] + w)
+      vref = sref["qvel"]
+      sig = "step:" + name + ":qvel"
+      if muscle_ids:
+        sig += ":muscle-gain-velocity-term"
+      if name == "implicit" and has_fluid:
+        sig += ":fluid"
+      if name == "implicitfast" and has_ellipsoid:
+        sig += ":ellipsoid-fluid"
+      Aref = M_ref - dt * (Df_ref if name == "implicitfast" else Di_ref)
+      if name == "implicitfast":
+        Aref = np.tril(Aref) + np.tril(Aref, -1).T
+      cnd = float(np.linalg.cond(Aref))
+      judge_el(rec, "qvel_after_step_" + name, qvel_next[name][w], vref, max(1e-4, 3e-7 * cnd), snoise["qvel"], scale=max(1.0, float(np.abs(vref).max()), dt * qacc_max), sig=sig + suffix, ctx=ctx)
     nz = int((np.abs(Di_ref) > 1e-9).sum())
     if nz >= 3:
       nontrivial = True
